@@ -539,8 +539,9 @@ def block_value_rule(fi, stmts, name, expected_src, rule, role, node=None, named
     if res == "EQUAL":
         return holds(rule, fi, role, "%s == %s" % (name, expected_src), node)
     if res == "DIFFERENT":
+        from .terms import structural_difference
         return violation(rule, fi, role, "`%s` evaluates to %s, expected %s" % (name, canon(got)[:120], expected_src), node,
-                         semantic=True, witness={"got": canon(got)[:200], "expected": canon(exp)[:200]})
+                         semantic=structural_difference(got, exp), witness={"got": canon(got)[:200], "expected": canon(exp)[:200]})
     return unrecognised(rule, fi, role, "`%s` = %s (outside the arithmetic fragment)" % (name, canon(got)[:120]), node)
 
 
